@@ -421,7 +421,7 @@ DOM_WRAPPERS = ["div", "divin", "mod", "modin", "divmod", "divexact", "quo", "re
 def model_defs():
     txt = open(os.path.join(vf.coq_dir(AREA), "Model.v")).read()
     txt = re.sub(r"\(\*.*?\*\)", " ", txt, flags=re.S)
-    return {m.group(1): m.group(2) for m in re.finditer(r"Definition\s+(\w+)\b[^:=]*(?::[^:=]*)?:=(.*?)\.\s*(?=\n|$)", txt, flags=re.S)}
+    return {m.group(1): m.group(3) for m in re.finditer(r"Definition\s+(\w+)\b(.*?):=(.*?)\.[ \t]*(?:\n|$)", txt + "\n", flags=re.S)}
 
 def ptypes(params):
     out = []
@@ -482,8 +482,9 @@ def source_tie(chk):
             bad("%s: no definition %s in the source (signature changed or removed)" % (g, key)); continue
         if g not in md:
             bad("model definition %s missing" % g); continue
-        got = [re.sub(r"\s+|\(", "", t) for t in re.findall(r"\bmpz_\w+|operator\s*[%/]=?\s*\(|\bdiv\s*\(", defs[key])]
-        exp = [CALLEE.get(t, t) for t in re.findall(r"\bmpz_\w+|\bop_mod_ul\b|\bdiv_l\b", md[g])]
+        # after the preprocessor the GMP entry points carry their linker names (__gmpz_tdiv_q ...; mpz_mod_ui is a macro for mpz_fdiv_r_ui)
+        got = [re.sub(r"\s+|\(", "", t).replace("__gmpz_", "mpz_") for t in re.findall(r"\b__gmpz_\w+|operator\s*[%/]=?\s*\(|\bdiv\s*\(", defs[key])]
+        exp = [{"mpz_mod_ui": "mpz_fdiv_r_ui"}.get(t, CALLEE.get(t, t)) for t in re.findall(r"\bmpz_\w+|\bop_mod_ul\b|\bdiv_l\b", md[g])]
         tie["primitive_sequences_compared"] += 1
         if got != exp:
             bad("%s calls %s in the source, the model body %s has %s" % (key, got, g, exp))
